@@ -39,7 +39,8 @@ def tref(r):
     return {'name': str(r.name), 'opt': r.optional, 'params': [tref(p) for p in r.parameters],
             'target': None if td is None else {'name': str(td.name), 'ns': [str(x) for x in td.namespace], 'prim': str(td.primitive.value),
                                                'builtin': not hasattr(td, 'dependencies'), 'anonymous': bool(getattr(td, 'anonymous', False)),
-                                               'java': {a: attr(td, 'java', a).get('v') for a in ('typename', 'boxed', 'reference')}}}
+                                               'java': {a: attr(td, 'java', a).get('v') for a in ('typename', 'boxed', 'reference')},
+                                               'jni': {a: attr(td, 'jni', a).get('v') for a in ('type_signature', 'boxed_type_signature', 'typename')}}}
 
 
 def dump_members(d, want):
